@@ -71,6 +71,7 @@ def run(ctx):
         _orderkey(ctx, cfg, prog, mod)
         _indexsrc(ctx, cfg, prog, mod)
         _orderhash(ctx, cfg, prog, mod)
+        _accumfold(ctx, cfg, prog, mod)
         rts = roots(prog, mod)
         ctx.floor('determinism roots (constructors + exported &mut operations)', 30, len(rts), cfg)
         reach = prog.reachable_from(rts)
@@ -514,3 +515,91 @@ def _orderhash(ctx, cfg, prog, mod):
                        'in which the caller listed the vertices (seeds derived from it make the shuffled-retry / rebuild path '
                        'order-dependent under the Hilbert / Morton / lexicographic orderings)'), site=site)
     ctx.floor('hash computations over the vertex set', 1, n, cfg)
+
+
+FOLD_CALLS = ('min', 'max', 'minimum', 'maximum', 'fmin', 'fmax')
+
+
+def _accumfold(ctx, cfg, prog, mod):
+    """ACCUMFOLD: the value-based ordering strategies normalise coordinates with bounds folded over *all* coordinates of
+    *all* vertices; the bounds must not depend on the order in which the vertices are scanned.  For every scalar
+    accumulator of an ordering function (a float local initialised before a loop, updated inside it): each update is a
+    commutative fold call (`a = a.min(c)` / `max`) or a conditional assignment whose controlling comparisons mention
+    no *other* accumulator (`if c < min {..} else if c > max {..}` skips the `max` update for an element that was a new
+    minimum - wrong exactly when the first-listed element holds the maximum)."""
+    import loops
+    ctx.rule('ACCUMFOLD', 'normalisation bounds of the ordering strategies are folded independently of the scan order')
+    n = 0
+    for q, b in sorted(prog.bodies.items()):
+        last = q.rsplit('::', 1)[-1]
+        if b.kind == 'closure' or not last.startswith('order_vertices_') or '::tests::' in q:
+            continue
+        lps = loops.natural_loops(b)
+        if not lps:
+            continue
+        in_loop = set().union(*lps.values())
+        floaty = lambda ty: ty in ('f64', 'f32') or (ty.isidentifier() and len(ty) <= 2 and ty[0].isupper())
+        # accumulators: float locals defined both outside and inside a loop
+        accs = {}
+        for l, ty in enumerate(b.locals):
+            if l <= b.nargs or not floaty(ty):
+                continue
+            dblocks = [d[0] for d in b.defs.get(l, [])]
+            if any(x in in_loop for x in dblocks) and any(x not in in_loop for x in dblocks) and b.names.get(l):
+                accs[l] = b.names.get(l)
+        if not accs:
+            continue
+
+        def copies_of(l):
+            out = {l}
+            for blk in b.blocks:
+                for s_ in blk.stmts:
+                    if s_.kind == 'A' and s_.rv.k == 'use' and s_.rv.ops and s_.rv.ops[0].place is not None and \
+                            s_.rv.ops[0].place.is_local() and s_.rv.ops[0].place.local == l and s_.place.is_local() and \
+                            s_.place.local not in accs:
+                        out.add(s_.place.local)
+            return out
+        acc_copies = {a: copies_of(a) for a in accs}
+        for a, name in sorted(accs.items()):
+            for (dbb, didx, node) in b.defs.get(a, []):
+                if dbb not in in_loop:
+                    continue
+                n += 1
+                site = '%s:%d' % (b.file, node.line if hasattr(node, 'line') else b.line)
+                if didx == 'term':
+                    lastc = (node.callee or node.resolved or '').rsplit('::', 1)[-1]
+                    ok = lastc in FOLD_CALLS and any(o.place is not None and o.place.local in acc_copies[a] for o in node.args)
+                    ctx.ob('ACCUMFOLD', '%s|%s' % (q, name), cfg, ok,
+                           'accumulator `%s` updated by %s()' % (name, lastc) + ('' if ok else ': not a commutative fold of itself'), site=site)
+                    continue
+                # conditional assignment: switches inside the loop that decide whether this block runs
+                h = [hh for hh, nodes in lps.items() if dbb in nodes]
+                nodes = min((lps[hh] for hh in h), key=len)
+                hdr = [hh for hh in h if lps[hh] is nodes][0] if any(lps[hh] is nodes for hh in h) else h[0]
+                bad = []
+                for sb in sorted(nodes):
+                    t = b.blocks[sb].term
+                    if t.k != 'switch' or t.discr.place is None or not t.discr.place.is_local():
+                        continue
+                    succs = [x for x in b.succs(sb) if x in nodes]
+                    if len(succs) < 2:
+                        continue
+                    reach = [dbb in flow.reach_edges(b, [x], avoid_blocks={hdr}) or x == dbb for x in succs]
+                    if all(reach) or not any(reach):
+                        continue
+                    d = b.single_def(t.discr.place.local)
+                    if d is None or d[1] == 'term' or d[2].rv.k != 'bin':
+                        continue
+                    for o in d[2].rv.ops:
+                        if o.place is None:
+                            continue
+                        for a2, cps in acc_copies.items():
+                            if a2 != a and o.place.local in cps:
+                                bad.append(accs[a2])
+                ok = not bad
+                ctx.ob('ACCUMFOLD', '%s|%s' % (q, name), cfg, ok,
+                       'accumulator `%s` is assigned conditionally; %s' % (name, 'the deciding comparisons mention only itself' if ok else
+                       'whether the update runs also depends on a comparison with the other accumulator(s) %s: an element that updates '
+                       'one bound is never considered for the other, so the bounds - and with them the quantised order - depend '
+                       'on which vertex is listed first' % sorted(set(bad))), site=site)
+    ctx.floor('accumulator updates in the ordering strategies', 2, n, cfg)
